@@ -239,3 +239,16 @@ mod tests {
         }
     }
 }
+
+#[cfg(feature = "verif-hooks")]
+impl AluOutput {
+    /// Verification hook: build an arbitrary latch content.
+    pub fn verif_new(output: u8, carry_out: bool, zero_out: bool, negative_out: bool) -> Self {
+        AluOutput {
+            output,
+            carry_out,
+            zero_out,
+            negative_out,
+        }
+    }
+}
